@@ -7,7 +7,8 @@ From Coq Require Import List Arith Bool.
 Import ListNotations.
 
 (* what will happen to one connection attempt (decided by the environment) *)
-Record attempt := { a_conn_ok : bool; a_sess_ok : bool; a_ping_ok : bool }.
+(* a_cancel: the lifetime ends while the establisher is completing this attempt (it is still served) *)
+Record attempt := { a_conn_ok : bool; a_sess_ok : bool; a_ping_ok : bool; a_cancel : bool }.
 
 Inductive phase :=
 | Idle                       (* between attempts, no permit held *)
@@ -28,6 +29,9 @@ Record pool := {
 
 Definition init_pool (n : nat) : pool :=
   {| size := n; free := n; ph := Idle; sessions := 0; opened := 0; queue := []; cancelled := false |}.
+
+Definition cancel_of (p : pool) : pool :=
+  {| size := size p; free := free p; ph := ph p; sessions := sessions p; opened := opened p; queue := queue p; cancelled := true |}.
 
 Definition mk (p : pool) (f : nat) (x : phase) (s o : nat) (q : list attempt) : pool :=
   {| size := size p; free := f; ph := x; sessions := s; opened := o; queue := q; cancelled := cancelled p |}.
@@ -53,6 +57,7 @@ Definition pstep (p : pool) (a : action) : pool :=
   | Connect =>
       match ph p, queue p with
       | Waiting, att :: q =>
+          let p := if a_cancel att then cancel_of p else p in
           if a_conn_ok att then mk p (free p) HaveConn (sessions p) (S (opened p)) (att :: q)
           else if cancelled p then mk p (free p) Exited (sessions p) (opened p) q
           else mk p (S (free p)) Idle (sessions p) (opened p) q
@@ -84,7 +89,7 @@ Definition pstep (p : pool) (a : action) : pool :=
       | S s => mk p (S (free p)) (ph p) s (pred (opened p)) (queue p)
       | O => p
       end
-  | Cancel => {| size := size p; free := free p; ph := ph p; sessions := sessions p; opened := opened p; queue := queue p; cancelled := true |}
+  | Cancel => cancel_of p
   | ProviderExit =>
       match ph p with
       | Idle | Waiting => if cancelled p then mk p (free p) Exited (sessions p) (opened p) (queue p) else p
